@@ -30,15 +30,18 @@ LEVEL = "exploration"
 RULE = ("pairs: enumerated table (pattern x path): 596 patterns of 0..4 segments, non-final segment in "
         "{a, ab, a.b, :x}, final additionally in {:x?, :x+, :x*}; paths = every string lead + '/'.join(segs) + trail "
         "with segs of 0..5 entries of {a, ab, b, a.b, axb, abc, A, ''}, trail in {'', '/'}, lead '/' "
-        "(lead '' for segs of 0..3 entries); each pattern alone in a Router, oracle = reference matcher written from "
+        "(lead '' for segs of 0..3 entries; the quick tier takes every 4th of the 5-segment paths, the thorough tier all); "
+        "each pattern alone in a Router, oracle = reference matcher written from "
         "the docstring grammar (verdict match / no match / unspecified, bindings). non-trivial pair = the reference "
         "says NO match although the path begins with '/' + the pattern's leading literal segment, or the pair "
         "matches with a bound :x+ / :x* tail of >= 2 segments; all (pattern, path) pairs are distinct by construction. "
         "tables: Hypothesis-drawn route tables of 1..4 (method, pattern) entries registered in every permutation, "
         "paths derived from the drawn patterns (conforming, extended/truncated literal, extra/empty segment) plus all "
         "paths of <= 1 segment; getRoute and dispatch for GET/DELETE/POST/PUT; non-trivial = (table, path, method) "
-        "with >= 2 registered routes of that method matching. lits: single routes whose literal segments contain "
-        ". + $ - _ ~; non-trivial = no-match verdict on a path derived from the pattern by editing one literal.")
+        "with >= 2 registered routes of that method matching; entries may be websocket routes (registered under GET), "
+        "handlers keep their names across the permutations (resource classes reusing names in another order), and the "
+        "table may grow after lookups were answered. lits: single routes whose literal segments contain "
+        ". + $ - _ ~ and path segments holding backslashes, brackets, %, :, *, non-ASCII; non-trivial = no-match verdict on a path derived from the pattern by editing one literal.")
 ASSUMPTIONS = [
     "the reference matcher (split on '/', whole-segment equality, component counts) is written from the grammar "
     "table in the Resource docstring / docs/http.md and is trusted",
@@ -57,6 +60,11 @@ PATH_ALPHA = ["a", "ab", "b", "a.b", "axb", "abc", "A", ""]
 METHODS = ["GET", "DELETE", "POST", "PUT"]
 
 MATCH, NOMATCH, UNSPEC = "match", "nomatch", "unspecified"
+
+
+def eff(method):
+    """table entries may carry the pseudo method "WS": a websocket route, which the library registers under GET"""
+    return "GET" if method == "WS" else method
 
 
 # ------------------------------------------------------------------ reference matcher (from the docs)
@@ -237,10 +245,13 @@ class Table(object):
         if self.mode == "routes":
             routes = []
             for i, (method, pattern) in chunk:
-                routes.append(Route("r" + self.names[i], method, pattern, self._callback(i)))
+                if method == "WS":
+                    routes.append(Route("r" + self.names[i], "GET", pattern, self._callback(i), websocket=True))
+                else:
+                    routes.append(Route("r" + self.names[i], method, pattern, self._callback(i)))
             self.router.registerRoutes(routes)
         else:
-            deco = {"GET": H.get, "DELETE": H.delete, "POST": H.post, "PUT": H.put}
+            deco = {"GET": H.get, "DELETE": H.delete, "POST": H.post, "PUT": H.put, "WS": H.websocket}
             handlers = [(self.names[i], deco[method](pattern)(self._method(i))) for i, (method, pattern) in chunk]
 
             def body(ns):
@@ -292,7 +303,7 @@ def expectation(pats, entries, method, path):
     binds = {}
     decided = False
     for i, (m, _) in enumerate(entries):
-        if m != method:
+        if eff(m) != method:
             continue
         v, b = ref_match(pats[i], path)
         verdicts[i] = v
@@ -328,7 +339,7 @@ def check_lookup(ctx, table, pats, method, path, case, with_dispatch=True):
             first = min(i for i in acceptable if i is not None)
             ctx.violation("under-match", "%s: getRoute -> None, the documented grammar says route #%d %r matches (bindings %r)"
                           % (where, first, entries[first][1], binds[first]), case)
-        elif entries[got][0] != method:
+        elif eff(entries[got][0]) != method:
             ctx.violation("method-isolation", "%s: getRoute -> route #%d registered for %s" % (where, got, entries[got][0]), case)
         elif verdicts.get(got) == NOMATCH:
             ctx.violation("over-match:" + why_not(pats[got], path),
@@ -341,7 +352,8 @@ def check_lookup(ctx, table, pats, method, path, case, with_dispatch=True):
     if got is not None and verdicts[got] == MATCH:
         if not bindings_equal(pats[got], path, got_b, binds[got]):
             ctx.violation("bindings", "%s: route #%d %r reports %r, the grammar binds %r" % (where, got, entries[got][1], got_b, binds[got]), case)
-    if with_dispatch:
+    if with_dispatch and not any(i is not None and entries[i][0] == "WS" for i in acceptable):
+        # (a websocket route answers a plain request with 400 "upgrade header missing": route choice is judged by getRoute)
         resp, calls = table.dispatch(method, path)
         status = getattr(resp, "status_code", None)
         if acceptable == {None}:
@@ -397,6 +409,10 @@ PATTERNS = all_patterns()
 
 def run_pairs(spec, ctx):
     paths = all_paths(spec["maxseg"], spec["nolead"])
+    if spec.get("path_stride"):
+        # quick tier: the 5-segment paths are sampled (every k-th, offset by the shard), shorter ones are all there
+        k = spec["path_stride"]
+        paths = [p for j, p in enumerate(paths) if p.count("/") < 5 or j % k == spec["i"] % k]
     mine = PATTERNS[spec["i"]::spec["n"]]
     n = nt = unspec = nmatch = 0
     for pattern in mine:
@@ -428,7 +444,7 @@ def run_pairs(spec, ctx):
     ctx.label("pairs-unspecified", unspec)
     ctx.extra["unspecified_pairs"] = ctx.extra.get("unspecified_pairs", 0) + unspec
     ctx.sample({"part": "pairs", "patterns": mine[:3] + ["..."], "n_patterns": len(mine), "n_paths": len(paths), "paths": paths[40:46]})
-    if spec["maxseg"] >= 5:
+    if spec["maxseg"] >= 5 and not spec.get("path_stride"):
         ctx.exhaustive_sub.add("Router: 596 patterns (<= 4 segments over a, ab, a.b, :x; last also :x? :x+ :x*) x every path of "
                                "<= 5 segments over {a, ab, b, a.b, axb, abc, A, ''} with/without trailing slash")
 
@@ -482,6 +498,8 @@ def table_case(ctx, case, count=True):
             ctx.label("table-with-multi-match")
         ctx.label("table-size-%d" % len(entries))
         ctx.label("table-mode-" + case["mode"])
+        if any(m == "WS" for m, _ in entries) and any(m == "GET" for m, _ in entries):
+            ctx.label("table-mixes-websocket-and-plain-get-routes")
 
 
 def seg_strategy(lits):
@@ -571,7 +589,7 @@ def table_strategy(draw):
             pattern = "/" + "/".join(base[:-1] + [last])
         else:
             pattern = draw(pattern_strategy(LITS, maxlen=3 if draw(st.booleans()) else 4))
-        method = draw(st.sampled_from(["GET", "GET", "GET", "GET", "DELETE", "POST"]))
+        method = draw(st.sampled_from(["GET", "GET", "GET", "GET", "DELETE", "POST", "WS", "WS"]))
         routes.append([method, pattern])
     free = st.builds(lambda segs, trail: "/" + "/".join(segs) + trail,
                      st.lists(st.sampled_from(PATH_ALPHA), min_size=0, max_size=5), st.sampled_from(["", "/"]))
@@ -601,7 +619,11 @@ def run_tables(spec, ctx):
 # ------------------------------------------------------------------ part "lits"
 WIDE_LITS = ["a", "ab", "a.b", "a+", "a+b", "c++", "a$", "$a", "a-b", "a_b", "a~", ".a", "b.", "a.b.c", "index.html", "v1.0"]
 WIDE_ALPHA = ["a", "ab", "b", "a.b", "axb", "aa", "aab", "a+", "a+b", "c++", "c", "cc", "a$", "a-b", "a_b", "a~", ".a", "xa",
-              "b.", "bx", "index.html", "indexXhtml", "INDEX.HTML", "v1.0", "v1x0", "V1.0", "A", "AB", ""]
+              "b.", "bx", "index.html", "indexXhtml", "INDEX.HTML", "v1.0", "v1x0", "V1.0", "A", "AB", "",
+              # characters that mean something to a regular expression or to a path parser but are ordinary segment
+              # characters for the documented grammar (a parameter binds any non-empty segment)
+              "\\", "a\\b", "\\a", "a\\", "DOMAIN\\bob", "[a]", "a]", "^a", "(a)", "a|b", "a b", "%2F", "a%2Fb", "a:b", ":a",
+              "*", "a*", "{a}", "\u00e9", "\u65e5\u672c", "\U0001f600", "a\u0301", "..", "."]
 
 
 def lits_case(ctx, case, count=True):
@@ -648,9 +670,9 @@ def run_lits(spec, ctx):
 def plan(tier):
     specs = []
     if tier == "quick":
-        # the (pattern x path) table is cheap enough to be enumerated completely in both tiers
+                # every pattern x every path of <= 4 segments, and every 4th of the 5-segment paths (thorough: all of them)
         for i in range(12):
-            specs.append({"part": "pairs", "i": i, "n": 12, "maxseg": 5, "nolead": 3})
+            specs.append({"part": "pairs", "i": i, "n": 12, "maxseg": 5, "nolead": 3, "path_stride": 4})
         for i in range(6):
             specs.append({"part": "tables", "n": 600, "i": i})
         for i in range(2):
